@@ -177,3 +177,67 @@ func VH_C05_authorized_keys_directory_is_the_requested_accounts() {
 	}
 	verifCover("looked-up")
 }
+
+// A matching host block is applied with ALL of its settings: whatever a block
+// sets overrides what Global (or an earlier block) set, for every setting a
+// block can carry - the security-relevant ones included. A block that says
+// InsecureSkipVerify = false for one host must win over a Global true.
+
+func c20OptBool(tag string) *bool {
+	switch verifPick(tag, 0, 1, 2) {
+	case 1:
+		v := false
+		return &v
+	case 2:
+		v := true
+		return &v
+	}
+	return nil
+}
+
+func c20Pick2(later, earlier *bool) *bool {
+	if later != nil {
+		return later
+	}
+	return earlier
+}
+
+//verif:prop C20
+//verif:bounds Global plus one host block whose pattern matches or does not; one of InsecureSkipVerify, RequestAuthorization, AutoSelfSign, DisableAgent, IsPrincipal absent / false / true in Global and in the block (5 x 9 x 2 combinations; the settings are merged independently of each other)
+//verif:cover applied;not-applied
+func VH_C20_a_matching_host_block_is_applied_with_all_of_its_settings() {
+	var g, b HostConfigOptional
+	gv, bv := c20OptBool("global-value"), c20OptBool("block-value")
+	which := verifPick("setting", 0, 1, 2, 3, 4)
+	names := []string{"InsecureSkipVerify", "RequestAuthorization", "AutoSelfSign", "DisableAgent", "IsPrincipal"}
+	field := func(h *HostConfigOptional) **bool {
+		switch which {
+		case 0:
+			return &h.InsecureSkipVerify
+		case 1:
+			return &h.RequestAuthorization
+		case 2:
+			return &h.AutoSelfSign
+		case 3:
+			return &h.DisableAgent
+		}
+		return &h.IsPrincipal
+	}
+	*field(&g), *field(&b) = gv, bv
+	matches := verifBool("block-matches")
+	if matches {
+		b.Patterns = []string{"*.example"}
+	} else {
+		b.Patterns = []string{"other"}
+	}
+	c := &ClientConfig{Global: g, Hosts: []HostConfigOptional{b}}
+	got := *field(c.MatchHost("host.example"))
+	want := gv
+	if matches {
+		verifCover("applied")
+		want = c20Pick2(bv, gv)
+	} else {
+		verifCover("not-applied")
+	}
+	verifAssert((got == nil) == (want == nil) && (got == nil || *got == *want), "C20: a matching host block's "+names[which]+" setting is applied (what a block sets overrides Global - a block can switch verification back ON for one host)")
+}
